@@ -165,21 +165,21 @@ theorem rks_triv (x y z : PVal) : ∃ a a_1 a_2, (x = a ∧ y = a_1 ∧ z = a_2)
 theorem pyAdd_str (G : Globals) (a b : Str) : pyAdd G (.str a) (.str b) = .ok (.str (a ++ b)) := rfl
 
 /-- the relation between the loop state of `TagList.get_html_string` and the model-level state -/
-def RKS (s : PVal × PVal × PVal × PVal × PVal) (b : KS) : Prop :=
+def RKS {ρ : Type} (s : PVal × PVal × PVal × ρ) (b : KS) : Prop :=
   s.1 = .str b.acc ∧ s.2.1 = .bool b.first ∧ s.2.2.1 = .bool b.prev
 
 /-- whatever the body of the child loop is: if each pass simulates `kidStep`, the loop followed by `return html_`
     is `renderList` (or RuntimeError when an un-expanded object is reached) -/
-theorem child_loop (cfg : Cfg) (ks : Nodes) (i : Nat) (eol : Str) (aw esc : Bool)
-    (f : PVal → PVal × PVal × PVal × PVal × PVal → PyM (ForInStep (PVal × PVal × PVal × PVal × PVal)))
+theorem child_loop {ρ : Type} (cfg : Cfg) (ks : Nodes) (i : Nat) (eol : Str) (aw esc : Bool) (r0 : ρ)
+    (f : PVal → PVal × PVal × PVal × ρ → PyM (ForInStep (PVal × PVal × PVal × ρ)))
     (hstep : ∀ c ∈ ks.toList, ∀ s b, RKS s b →
       Sim (fun (r : ForInStep _) b' => ∃ s', r = .yield s' ∧ RKS s' b') embErr (f (embNode c) s) (kidStep cfg i eol esc c b)) :
     (do
-      let s ← forIn (ks.toList.map embNode) (PVal.str [], PVal.bool true, PVal.bool aw, PVal.none, PVal.none) f
+      let s ← forIn (ks.toList.map embNode) (PVal.str [], PVal.bool true, PVal.bool aw, r0) f
       Except.ok s.1 : PyM PVal)
       = if ks.hasTobjKids then .error .runtimeError else .ok (.str (renderList cfg ks i eol aw esc)) := by
-  have sim := forIn_sim RKS embErr embNode ks.toList f (fun c b => kidStep cfg i eol esc c b)
-    (PVal.str [], PVal.bool true, PVal.bool aw, PVal.none, PVal.none) ⟨[], true, aw⟩ ⟨rfl, rfl, rfl⟩ hstep
+  have sim := forIn_sim (RKS (ρ := ρ)) embErr embNode ks.toList f (fun c b => kidStep cfg i eol esc c b)
+    (PVal.str [], PVal.bool true, PVal.bool aw, r0) ⟨[], true, aw⟩ ⟨rfl, rfl, rfl⟩ hstep
   have kf := kids_fold cfg i eol esc ks ⟨[], true, aw⟩
   generalize List.foldlM (fun b c => kidStep cfg i eol esc c b) ({ acc := [], first := true, prev := aw } : KS) ks.toList = y at sim kf
   cases y with
@@ -222,16 +222,17 @@ theorem renderAttrs_fold (cfg : Cfg) (attrs : Attrs) (acc : Str) :
     rw [ih]
     simp [renderAttrs, attrText, List.append_assoc]
 
-/-- the attribute loop, whatever its body: if each pass appends the attribute's text -/
-theorem attr_loop (cfg : Cfg) (attrs : Attrs) (acc : Str)
-    (f : PVal → PVal × PVal × PVal → PyM (ForInStep (PVal × PVal × PVal)))
-    (hstep : ∀ kv ∈ attrs, ∀ (s : PVal × PVal × PVal) (b : Str), s.1 = .str b →
+/-- the attribute loop, whatever its body and whatever else its state carries: if each pass appends the attribute's
+    text to the first component -/
+theorem attr_loop {ρ : Type} (cfg : Cfg) (attrs : Attrs) (acc : Str) (r0 : ρ)
+    (f : PVal → PVal × ρ → PyM (ForInStep (PVal × ρ)))
+    (hstep : ∀ kv ∈ attrs, ∀ (s : PVal × ρ) (b : Str), s.1 = .str b →
       ∃ s', f (.tuple [.str kv.1, embVal kv.2]) s = .ok (.yield s') ∧ s'.1 = .str (b ++ attrText cfg kv)) :
-    ∃ s, forIn (attrs.map fun kv => PVal.tuple [.str kv.1, embVal kv.2]) (PVal.str acc, PVal.none, PVal.none) f = .ok s
+    ∃ s, forIn (attrs.map fun kv => PVal.tuple [.str kv.1, embVal kv.2]) (PVal.str acc, r0) f = .ok s
       ∧ s.1 = .str (acc ++ renderAttrs cfg attrs) := by
-  have sim := forIn_sim (fun (s : PVal × PVal × PVal) (b : Str) => s.1 = .str b) embErr
+  have sim := forIn_sim (fun (s : PVal × ρ) (b : Str) => s.1 = .str b) embErr
     (fun kv : Str × AttrVal => PVal.tuple [.str kv.1, embVal kv.2]) attrs f
-    (fun kv b => .ok (b ++ attrText cfg kv)) (PVal.str acc, PVal.none, PVal.none) acc rfl
+    (fun kv b => .ok (b ++ attrText cfg kv)) (PVal.str acc, r0) acc rfl
     (by
       intro kv hkv s b hR
       obtain ⟨s', h1, h2⟩ := hstep kv hkv s b hR
@@ -276,15 +277,15 @@ theorem vis_loop (ks : Nodes) (f : PVal → List PVal → PyM (ForInStep (List P
   rw [hs, hR, visible_eq_filter]
   simp
 
-theorem attr_loop_k {β : Type} (cfg : Cfg) (attrs : Attrs) (acc : Str) (L : List PVal)
+theorem attr_loop_k {β ρ : Type} (cfg : Cfg) (attrs : Attrs) (acc : Str) (r0 : ρ) (L : List PVal)
     (hL : L = attrs.map fun kv => PVal.tuple [.str kv.1, embVal kv.2])
-    (f : PVal → PVal × PVal × PVal → PyM (ForInStep (PVal × PVal × PVal)))
-    (hstep : ∀ kv ∈ attrs, ∀ (s : PVal × PVal × PVal) (b : Str), s.1 = .str b →
+    (f : PVal → PVal × ρ → PyM (ForInStep (PVal × ρ)))
+    (hstep : ∀ kv ∈ attrs, ∀ (s : PVal × ρ) (b : Str), s.1 = .str b →
       ∃ s', f (.tuple [.str kv.1, embVal kv.2]) s = .ok (.yield s') ∧ s'.1 = .str (b ++ attrText cfg kv))
-    (k : PVal × PVal × PVal → PyM β) (r : PyM β)
+    (k : PVal × ρ → PyM β) (r : PyM β)
     (hk : ∀ s, s.1 = .str (acc ++ renderAttrs cfg attrs) → k s = r) :
-    (forIn L (PVal.str acc, PVal.none, PVal.none) f >>= k) = r := by
-  obtain ⟨s, hs, h1⟩ := attr_loop cfg attrs acc f hstep
+    (forIn L (PVal.str acc, r0) f >>= k) = r := by
+  obtain ⟨s, hs, h1⟩ := attr_loop cfg attrs acc r0 f hstep
   rw [hL, hs, ok_bind]
   exact hk s h1
 
